@@ -7,7 +7,7 @@ namespace BV.C12
 inductive Result where
   | ok (t : Template)
   | err
-  deriving Repr
+  deriving Repr, DecidableEq
 
 def newBlockTemplate {Q : Type} (ops : QueueOps Q) (e : Env) (pool : List Tx) (fuel : Nat) : Result :=
   let c := candidate ops e pool fuel
